@@ -7,12 +7,15 @@
   sets) and the direct INIT oracle.  Bit-level statements use `Nat.testBit`, so they hold for
   every flag word, not a sample.
 
-  Scope note (partial): the VFS / passthrough / overlay toggles (no_open, no_opendir, writeback,
-  killpriv_v2, perfile_dax "iff negotiated") and "the VFS refuses a second INIT" live in other
-  engines' models (`vfs`, `pthost`); this file covers the server's negotiation itself.
+  The layer toggles (VFS / passthrough / overlay: no_open, no_opendir, writeback, killpriv_v2,
+  perfile_dax "only when negotiated") and "the VFS refuses a second INIT" are stated over
+  `Fbr.InitFs`, tied to `Vfs::init`, `PassthroughFs::init`, `OverlayFs::init` by the `initfs`
+  correspondence run (toggles observed by behaviour: OPEN/OPENDIR → ENOSYS, FUSE_ATTR_DAX).
 -/
 import Fbr.Lemmas.SrvReply
 import Fbr.Gen.AbiRust
+import Fbr.InitFs
+import Fbr.Lemmas.Bits
 
 namespace Fbr.Thm.C12
 open Fbr.Srv Fbr.Wire
@@ -152,5 +155,96 @@ example :
     let en := initEnabled cap 0x200000000
     en = 0x200000000 ∧ (initFlagsOut en).testBit 30 = true ∧ initFlagsOut en >>> 32 = 2 := by
   decide
+
+/-! ### the layers switch features on only when negotiated -/
+section Layers
+open Fbr.InitFs
+
+/-- rewrite option tests into bit tests -/
+macro "bits" : tactic => `(tactic|
+  simp only [ZMO_pow, ZMOD_pow, WB_pow, KP2_pow, AOT_pow, DAX_pow, RDP_pow, RDPA_pow, has_pow,
+    Nat.testBit_and, Nat.testBit_or, Nat.testBit_two_pow, without_bit _ _ _ (by decide : (3 : Nat) < 64),
+    without_bit _ _ _ (by decide : (16 : Nat) < 64), without_bit _ _ _ (by decide : (17 : Nat) < 64),
+    without_bit _ _ _ (by decide : (24 : Nat) < 64), without_bit _ _ _ (by decide : (28 : Nat) < 64),
+    without_bit _ _ _ (by decide : (33 : Nat) < 64)] at *)
+
+/-- **VFS**: after `init`, no-open mode is on only if the client offered zero-message open AND
+    the options the VFS returns (hence the reply) carry it; likewise no-opendir.  For every
+    option record (including caller-supplied `out_opts`) and every capability word. -/
+theorem vfs_toggles_only_when_negotiated (o : VfsOpts) (capable : Nat) :
+    ((vfsNegotiate o capable).noOpen = true →
+        has capable ZERO_MESSAGE_OPEN = true ∧ has (vfsNegotiate o capable).outOpts ZERO_MESSAGE_OPEN = true) ∧
+    ((vfsNegotiate o capable).noOpendir = true →
+        has capable ZERO_MESSAGE_OPENDIR = true ∧ has (vfsNegotiate o capable).outOpts ZERO_MESSAGE_OPENDIR = true) := by
+  unfold vfsNegotiate
+  cases h1 : o.noOpen <;> cases h2 : o.noOpendir <;> cases h3 : o.noWriteback <;> cases h4 : o.killprivV2 <;>
+    (simp only [Bool.false_and, Bool.true_and, Bool.not_false, Bool.not_true, if_true, if_false,
+       Bool.false_eq_true]
+     bits
+     simp
+     try (intros; simp_all))
+
+/-- and conversely the VFS never drops a negotiated zero-message mode it was configured for -/
+theorem vfs_toggles_when_negotiated (o : VfsOpts) (capable : Nat) (h : o.noOpen = true)
+    (hn : has (vfsNegotiate o capable).outOpts ZERO_MESSAGE_OPEN = true) :
+    (vfsNegotiate o capable).noOpen = true := by
+  unfold vfsNegotiate at hn ⊢
+  cases h2 : o.noOpendir <;> cases h3 : o.noWriteback <;> cases h4 : o.killprivV2 <;>
+    (simp only [h, h2, h3, h4, Bool.true_and, Bool.not_false, Bool.not_true, if_true, if_false, Bool.false_eq_true] at hn ⊢
+     bits
+     simp_all)
+
+/-- the VFS never asks for an option the server did not offer -/
+theorem vfs_wants_within_offered (o : VfsOpts) (capable : Nat) (i : Nat) :
+    (vfsNegotiate o capable).outOpts.testBit i = true → capable.testBit i = true := by
+  unfold vfsNegotiate
+  simp only [Nat.testBit_and]
+  intro h
+  simp at h
+  exact h.2
+
+/-- **The VFS refuses a second INIT** (and accepts one again after DESTROY) — for every history -/
+theorem second_init_refused (s : VfsState) (c1 c2 : Nat) :
+    (vfsInit (vfsInit s c1).1 c2).2 = none ∨ s.initialized = true ∧ (vfsInit s c1).2 = none := by
+  unfold vfsInit
+  cases h : s.initialized <;> simp [h]
+
+theorem init_after_destroy_accepted (s : VfsState) (c : Nat) : (vfsInit (vfsDestroy s) c).2 ≠ none := by
+  simp [vfsInit, vfsDestroy]
+
+theorem gate_and (c : LayerCfg) (sw : Bool) (capable k : Nat) :
+    gate c sw capable (2 ^ k) = (capable.testBit k && gate c sw capable (2 ^ k)) := by
+  unfold gate
+  rw [has_pow]
+  cases capable.testBit k <;> simp
+
+/-- **Passthrough**: each toggle is on exactly when its feature bit is both offered and wanted
+    (the server enables `capable ∩ want`), standalone or under the VFS, for every configuration
+    and capability word. -/
+theorem pt_toggles_iff_negotiated (c : LayerCfg) (capable : Nat) :
+    ((ptInit c capable).2.noOpen = has (capable &&& (ptInit c capable).1) ZERO_MESSAGE_OPEN) ∧
+    ((ptInit c capable).2.noOpendir = has (capable &&& (ptInit c capable).1) ZERO_MESSAGE_OPENDIR) ∧
+    ((ptInit c capable).2.writeback = has (capable &&& (ptInit c capable).1) WRITEBACK_CACHE) ∧
+    ((ptInit c capable).2.killprivV2 = has (capable &&& (ptInit c capable).1) HANDLE_KILLPRIV_V2) ∧
+    ((ptInit c capable).2.perfileDax = has (capable &&& (ptInit c capable).1) PERFILE_DAX) := by
+  unfold ptInit
+  simp only
+  obtain ⟨b16, b17, b24, b28, b33, _⟩ := ptOpts_bits (gate c c.writeback capable WRITEBACK_CACHE)
+    (gate c c.noOpen capable ZERO_MESSAGE_OPEN) (gate c c.noOpendir capable ZERO_MESSAGE_OPENDIR)
+    (gate c c.killprivV2 capable HANDLE_KILLPRIV_V2) (has capable PERFILE_DAX)
+  simp only [ZMO_pow, ZMOD_pow, WB_pow, KP2_pow, DAX_pow] at *
+  refine ⟨?_, ?_, ?_, ?_, ?_⟩
+  · rw [has_pow, Nat.testBit_and, b17]; exact gate_and c c.noOpen capable 17
+  · rw [has_pow, Nat.testBit_and, b24]; exact gate_and c c.noOpendir capable 24
+  · rw [has_pow, Nat.testBit_and, b16]; exact gate_and c c.writeback capable 16
+  · rw [has_pow, Nat.testBit_and, b28]; exact gate_and c c.killprivV2 capable 28
+  · simp only [has_pow, Nat.testBit_and] at b33 ⊢
+    rw [b33]; cases capable.testBit 33 <;> rfl
+
+/-- with no-open negotiated the passthrough never also advertises ATOMIC_O_TRUNC -/
+theorem pt_no_atomic_trunc (c : LayerCfg) (capable : Nat) : (ptInit c capable).1.testBit 3 = false :=
+  (ptOpts_bits _ _ _ _ _).2.2.2.2.2
+
+end Layers
 
 end Fbr.Thm.C12
